@@ -129,7 +129,16 @@ def sc_poly_use(p):
         cls = ops.Call if via == "Call" else ops.LoadFunc
         return lambda: cls(sig, inst, targs)
     m = Module()
-    d = m.declare_function("g", sig)
+    # the polymorphic callee is a declaration, a definition with declared outputs, or a definition whose outputs are inferred by set_outputs
+    how = (p["nparams"] + 2 * p["ntypeargs"] + (1 if p["inst"] else 0)) % 3
+    if how == 0:
+        d = m.declare_function("g", sig)
+    elif how == 1:
+        d = m.define_function("g", list(body.input), list(body.output), type_params=list(params)).parent_node
+    else:
+        g = m.define_function("g", list(body.input), type_params=list(params))
+        g.set_outputs(*g.inputs())
+        d = g.parent_node
     f = m.define_function("main", [tys.Bool])
     if via == "call":
         return lambda: f.call(d, f.inputs()[0], instantiation=inst, type_args=targs)
